@@ -149,7 +149,7 @@ def run_registry(tier, only=None, bound=None):
             return 2
         return 4 if sc in REGISTRY_SCENARIOS_QUICK else 3
     procs = [(sc, bound_of(sc), subprocess.Popen([exe, tier, "--scenario", sc, "--bound", str(bound_of(sc))], stdout=subprocess.PIPE, stderr=subprocess.PIPE, text=True)) for sc in scen]
-    viols, per, schedules, outcomes, nontrivial, items = [], [], 0, 0, 0, []
+    viols, per, schedules, outcomes, nontrivial, items, sites = [], [], 0, 0, 0, [], []
     for sc, b, p in procs:
         try:
             out, err = p.communicate(timeout=1500)
@@ -165,6 +165,7 @@ def run_registry(tier, only=None, bound=None):
         if d.get("machinery"):
             machinery("registry harness: " + d["machinery"])
         items = d.get("items", items)
+        sites = d.get("handler_sites", [])
         schedules += d["schedules"]
         outcomes += d["distinct_outcomes"]
         nontrivial += d["nontrivial"]
@@ -180,7 +181,8 @@ def run_registry(tier, only=None, bound=None):
             firsts.append(v)
     res = {"ok": True, "violations": firsts, "requests": 0, "states": outcomes, "transitions": schedules, "nontrivial": nontrivial, "outcomes": [],
            "wall": time.time() - t0, "capped": False, "completed_depth": None, "spec": {"mode": "registry-interleavings", "tier": tier}}
-    note = {"bound_to_code": True, "source_items_compiled": items, "schedules": schedules, "distinct_outcomes": outcomes, "per_scenario": per,
+    note = {"bound_to_code": True, "source_items_compiled": items, "handler_expressions_modelled": sites,
+            "thread_bodies_match_handlers": all(x.get("occurrences_in_server_src", 0) > 0 for x in sites) if sites else None, "schedules": schedules, "distinct_outcomes": outcomes, "per_scenario": per,
             "rule": "loom (DPOR, preemption-bounded, every execution runs to completion) over threads that use the server's own RunningGuard / RunningInfo / Task / listing code, extracted from server/src at build time and compiled against loom's Mutex: blocking tasks = register, compute (a scheduling point), unregister; GET = lock, build the listing (a scheduling point while the lock is held), unlock; admission test of solve = lock, contains, unlock. Checked in every schedule: a listing / admission test reports a task only if a task with exactly that user, problem and kind was registered and had not ended before the request began; once all tasks have ended the registry and every listing are empty; no deadlock, no panic, no poisoned lock. Handler code around these expressions is not part of the harness (it is exercised through HTTP by the other explorers)."}
     return res, note
 
